@@ -212,7 +212,7 @@ class Model:
     def const_value(self, expr, module, features, owner=None, depth=0):
         if depth > 20:
             raise Untranslatable(expr, "const recursion")
-        toks = expr.replace("(", " ( ").replace(")", " ) ").split()
+        toks = expr.replace("{", " ( ").replace("}", " ) ").replace("(", " ( ").replace(")", " ) ").split()
         out = []
         i = 0
         while i < len(toks):
@@ -643,8 +643,10 @@ class Model:
             if not m or m.group(1).strip() != "PublicKeyCredentialParameters":
                 raise Untranslatable(key, "visit_seq does not read PublicKeyCredentialParameters entries: "
                                           + (m.group(1) if m else "no next_element::<T>() found"))
-            if "push (el) . ok ()" not in dbody or "continue" not in dbody:
-                raise Untranslatable(key, "visit_seq body is not the filter-and-push(..).ok() loop the model describes")
+            why = self.lossy_loop_shape(dbody, need=("try_into", ))
+            if why or not ("continue" in dbody or re.search(r"if let Ok \(\w+\) =", dbody) or "match" in dbody):
+                raise Untranslatable(key, "visit_seq body is not the filter-and-push(..).ok() loop the model describes: "
+                                     + (why or "no skip of unknown entries"))
             elem_key = None
             for c in self.by_name.get("PublicKeyCredentialParameters", []):
                 if c["kind"] == "struct":
@@ -665,17 +667,47 @@ class Model:
                 raise Untranslatable(key, "known_formats field not found")
             dimp = self.manual_impl("Deserialize", name, it["module"])
             dbody = " ".join(f.get("body") or "" for f in dimp["items"] if f["kind"] == "fn")
-            if not re.search(r"next_element :: < & str >", dbody) or "push (format) . ok ()" not in dbody \
-                    or "unknown = true" not in dbody:
-                raise Untranslatable(key, "visit_seq body is not the known/unknown format loop the model describes")
+            why = self.lossy_loop_shape(dbody, need=("try_from", "unknown = true"))
+            if not re.search(r"next_element :: < & str >", dbody) or why:
+                raise Untranslatable(key, "visit_seq body is not the known/unknown format loop the model describes: "
+                                     + (why or "element type is not &str"))
             ety = self.named_ty(et["named"], features)
             return {"leaf": "attFmtPref", "de": ety["de"], "cap": cap, "elem": et["named"],
                     "caps": {"ser": False, "de": True}}
         raise Untranslatable(key, "struct without serde derive and no hand model")
 
+    @staticmethod
+    def lossy_loop_shape(dbody, need=()):
+        """the hand-written `visit_seq` loops the model describes: `while let Some(..) = seq.next_element()?`
+        reading every element, pushing with the error discarded, nothing that can panic or leave
+        the loop early.  Returns None when the body is of that shape (whatever the spelling:
+        if-let / match / let-else, `.ok()` / `let _ =`), else what is wrong."""
+        i = dbody.find("fn visit_seq")
+        if i < 0:
+            return "no visit_seq"
+        j = dbody.find("deserializer . deserialize", i)
+        body = dbody[i:j if j > 0 else None]
+        toks = body.split()
+        if not re.search(r"while let Some \(\s*\w+\s*\) = \w+ \. next_element", body):
+            return "no `while let Some(x) = seq.next_element()` loop"
+        if toks.count("?") != 1:
+            return "fallible calls other than next_element()?"
+        for w in ("unwrap", "expect", "extend", "extend_from_slice", "break", "return", "panic", "unreachable", "insert",
+                  "truncate", "pop", "clear", "remove", "unsafe", "take", "skip", "size_hint", "capacity", "is_full", "len"):
+            if w in toks:
+                return f"`{w}` in the loop"
+        if not (re.search(r"push \(\s*\w+\s*\) \. ok \(\)", body) or re.search(r"let _ = [\w .]*push \(\s*\w+\s*\)", body)):
+            return "push without discarding its error"
+        for n in need:
+            if n not in body:
+                return f"`{n}` not found"
+        return None
+
     # ------------------------------------------------------------------ whole schema
-    def all_wire_types(self, features):
-        """every crate struct/enum with a serde representation, keyed by rust path"""
+    def all_wire_types(self, features, errors=None, baseline_types=None):
+        """every crate struct/enum with a serde representation, keyed by rust path.  With `errors`
+        given, a type the translator cannot read is replaced by the pinned tree's description
+        (when there is one) and recorded under errors["type:<key>"]."""
         out = {}
         for _, it in self.items:
             if it["kind"] not in ("struct", "enum"):
@@ -691,7 +723,14 @@ class Model:
                       or self.manual_impl("Serialize", it["name"], it["module"]))
             if not serdeish and not manual:
                 continue
-            out[key] = self.named_ty(key, features)
+            try:
+                out[key] = self.named_ty(key, features)
+            except Untranslatable as e:
+                if errors is None or baseline_types is None or key not in baseline_types:
+                    raise
+                errors["type:" + key] = str(e)
+                out[key] = baseline_types[key]
+                continue
             has_default = "Default" in d or self.manual_impl("Default", it["name"], it["module"]) is not None
             builder = None
             for c in self.by_name.get(it["name"] + "Builder", []):
@@ -746,8 +785,9 @@ class Model:
                         r["adExt" + flavour] = self.ty_of(args[1], mod, features)["named"]
         return r
 
-    def schema(self, features):
-        types = self.all_wire_types(features)
+    def schema(self, features, errors=None, baseline=None):
+        bt = baseline["schemas"][cfg_id(features)]["types"] if baseline and cfg_id(features) in baseline.get("schemas", {}) else None
+        types = self.all_wire_types(features, errors, bt)
         roles = {k: v for k, v in self.roles(features).items() if v in types}
 
         def variants(enum):
@@ -765,9 +805,31 @@ class Model:
                 "variants": {"request_variants": variants("Request"), "response_variants": variants("Response")}}
 
     # ------------------------------------------------------------------ tables
-    def tables(self):
+    def tables(self, errors=None, baseline=None):
+        """all tables.  With `errors` given, each group of tables is computed on its own; a group the
+        translator cannot read is recorded under errors[<aspect>] and filled from the pinned
+        tree's tables, so that properties which do not depend on it are still decided."""
         feats = frozenset()
         t = {}
+        groups = [("op", self._t_op), ("resp", self._t_resp), ("status", self._t_status), ("bitflags", self._t_bitflags),
+                  ("dispatch", self._t_dispatch), ("consts", self._t_consts), ("fingerprints", self._t_fingerprints),
+                  ("gating", self._t_gating), ("arb", self._t_arb)]
+        for aspect, fn in groups:
+            part = {}
+            try:
+                fn(part, feats)
+            except Untranslatable as e:
+                if errors is None or baseline is None:
+                    raise
+                errors[aspect] = str(e)
+                part = {}
+            t.update(part)
+        if baseline is not None:
+            for k, v in baseline.get("tables", {}).items():
+                t.setdefault(k, v)
+        return t
+
+    def _t_op(self, t, feats):
         # Operation byte tables
         op_enum = [c for c in self.by_name.get("Operation", []) if c["kind"] == "enum"][0]
         t["operations"] = [v["name"] for v in op_enum["variants"]]
@@ -804,13 +866,20 @@ class Model:
                     if f["kind"] == "fn" and f["name"] == "deserialize":
                         t["op_switch"] = self.op_switch(f)
                         t["fp_request_deserialize"] = fingerprint(f["body"])
+
+    def _t_resp(self, t, feats):
+        for imp in self.impls:
             if imp["trait"] is None and imp["self_ty"].strip() == "Response" and imp["module"] == "ctap2":
                 for f in imp["items"]:
                     if f["kind"] == "fn" and f["name"] == "serialize":
                         t["resp_switch"] = self.resp_switch(f)
                         t["fp_response_serialize"] = fingerprint(f["body"])
                         m = re.search(r"\* status = Error :: (\w+) as u8", f["body"])
-                        t["resp_error_variant"] = m.group(1) if m else None
+                        if not m:
+                            raise Untranslatable("Response::serialize", "failure status assignment not recognised")
+                        t["resp_error_variant"] = m.group(1)
+
+    def _t_status(self, t, feats):
         # status codes
         for c in self.by_name.get("Error", []):
             if c["kind"] == "enum" and c["module"] == "ctap2":
@@ -820,7 +889,8 @@ class Model:
             for c in self.by_name.get(ename, []):
                 if c["kind"] == "enum":
                     t["enum_" + ename] = [[v["name"], self.const_value(v["disc"], c["module"], feats)] for v in c["variants"]]
-        # bitflags
+
+    def _t_bitflags(self, t, feats):
         t["bitflags"] = {}
         for m in self.macros:
             if m["path"].strip() == "bitflags":
@@ -837,7 +907,8 @@ class Model:
                         raise Untranslatable("bitflags", f"odd flag {c}")
                     flags.append([cm.group(1), self.const_value(cm.group(2), m["module"], feats)])
                 t["bitflags"][mm.group(1)] = flags
-        # dispatch
+
+    def _t_dispatch(self, t, feats):
         t["dispatch2"] = self.dispatch("ctap2", "Authenticator", "call_ctap2")
         t["dispatch1"] = self.dispatch("ctap1", "Authenticator", "call_ctap1")
         t["rpc2"] = self.rpc_delegate("ctap2")
@@ -851,7 +922,8 @@ class Model:
         t["version_default_bytes"] = m.group(1) if m else None
         t["rpc2_delegates"] = bool(re.fullmatch(r"\{ self \. call_ctap2 \(request\) \}", t["rpc2"]))
         t["rpc1_delegates"] = bool(re.fullmatch(r"\{ self \. call_ctap1 \(request\) \}", t["rpc1"]))
-        # constants
+
+    def _t_consts(self, t, feats):
         consts = {}
         for cname in ("AUTHENTICATOR_DATA_LENGTH", "THEORETICAL_MAX_MESSAGE_SIZE", "MAX_CREDENTIAL_COUNT_IN_LIST",
                       "COUNT_KNOWN_ALGS", "NO_ERROR", "ASN1_SIGNATURE_LENGTH", "COSE_KEY_LENGTH", "PACKET_SIZE",
@@ -870,6 +942,8 @@ class Model:
         consts["VENDOR_LAST"] = self.named_const("VendorOperation::LAST", "operation", feats)
         consts["truncate_window"] = self.truncate_window()
         t["consts"] = consts
+
+    def _t_fingerprints(self, t, feats):
         # fingerprints of hand-modelled functions
         fps = {}
         for fname in ("floor_char_boundary", "truncate", "is_utf8_char_boundary",
@@ -894,6 +968,8 @@ class Model:
                     ) or (tr.startswith("Arbitrary")):
                         fps[f"{imp['module']}::{st}::{tr}::{f['name']}"] = fingerprint(f["body"])
         t["fingerprints"] = fps
+
+    def _t_gating(self, t, feats):
         # features gating anything other than derives / the arbitrary module
         gated = set()
         for _, it in self.items:
@@ -912,23 +988,52 @@ class Model:
             if it["kind"] == "const":
                 gated |= cfg_mentions(it.get("attrs", []))
         t["wire_gating_features"] = sorted(gated)
+
+    def _t_arb(self, t, feats):
         t["arb"] = self.arb_tables()
-        return t
 
     # ------------------------------------------------------------------ src/arbitrary.rs (C19)
-    ARB_STR = ("{letn=usize::arbitrary(u)?%CLAMP%;matchcore::str::from_utf8(u.peek_bytes(n).ok_or(Error::NotEnoughData)?)"
-               "{Ok(s)=>{u.bytes(n)?;Ok(s.try_into().unwrap())}Err(e)=>{leti=e.valid_up_to();letvalid=u.bytes(i)?;"
-               "lets=unsafe{core::str::from_utf8_unchecked(valid)};Ok(s.try_into().unwrap())}}}")
-    ARB_BYTES = "{letn=usize::arbitrary(u)?%CLAMP%;Ok(Bytes::from_slice(u.bytes(n)?).unwrap())}"
-    ARB_VEC = ("{letmutvec=Vec::new();u.arbitrary_loop(Some(0),Some(%MAX%.try_into().unwrap()),|u|{vec.push(u.arbitrary()?)"
-               ".unwrap();Ok(ControlFlow::Continue(()))})?;Ok(vec)}")
-    ARB_BYTE_ARRAY = ("{letbytes:&[u8;N]=u.bytes(N)?.try_into().unwrap();"
-                      "Ok(unsafe{&*(bytesas*const[u8;N]as*constByteArray<N>)})}")
-    ARB_OPTION = "{ifbool::arbitrary(u)?{f(u).map(Some)}else{Ok(None)}}"
-    ARB_KEY = "{letx=arbitrary_bytes(u)?;lety=arbitrary_bytes(u)?;Ok(EcdhEsHkdf256PublicKey{x,y})}"
+    # recognised helper bodies (token form as printed by proc-macro2; compared modulo the names of
+    # local bindings, see `alpha`)
+    ARB_STR = ("{ let n = usize :: arbitrary (u) ? %CLAMP% ; match core :: str :: from_utf8 (u . peek_bytes (n) . ok_or (Error :: NotEnoughData) ?) "
+               "{ Ok (s) => { u . bytes (n) ? ; Ok (s . try_into () . unwrap ()) } Err (e) => { let i = e . valid_up_to () ; "
+               "let valid = u . bytes (i) ? ; let s = unsafe { core :: str :: from_utf8_unchecked (valid) } ; "
+               "Ok (s . try_into () . unwrap ()) } } }")
+    ARB_BYTES = "{ let n = usize :: arbitrary (u) ? %CLAMP% ; Ok (Bytes :: from_slice (u . bytes (n) ?) . unwrap ()) }"
+    ARB_VEC = ("{ let mut vec = Vec :: new () ; u . arbitrary_loop (Some (0) , Some (%MAX% . try_into () . unwrap ()) , "
+               "| u | { vec . push (u . arbitrary () ?) . unwrap () ; Ok (ControlFlow :: Continue (())) }) ? ; Ok (vec) }")
+    ARB_BYTE_ARRAY = ("{ let bytes : & [u8 ; N] = u . bytes (N) ? . try_into () . unwrap () ; "
+                      "Ok (unsafe { & * (bytes as * const [u8 ; N] as * const ByteArray < N >) }) }")
+    ARB_OPTION = "{ if bool :: arbitrary (u) ? { f (u) . map (Some) } else { Ok (None) } }"
+    ARB_KEY = "{ let x = arbitrary_bytes (u) ? ; let y = arbitrary_bytes (u) ? ; Ok (EcdhEsHkdf256PublicKey { x , y }) }"
+
+    @staticmethod
+    def alpha(body):
+        """normal form modulo renaming of local bindings (let / closure parameter / Ok-Err-Some
+        binder), then without white space"""
+        names = []
+        for m in re.finditer(r"\blet (?:mut )?(\w+)\b|\| (\w+) \||\b(?:Ok|Err|Some) \((\w+)\) =>", body):
+            n = m.group(1) or m.group(2) or m.group(3)
+            if n and n not in names and n != "_" and n != "u":
+                names.append(n)
+        for k, n in enumerate(names):
+            body = re.sub(r"\b%s\b" % re.escape(n), f"_v{k}", body)
+        return body.replace(" ", "")
+
     ARB_MODELLED = [("webauthn", "PublicKeyCredentialRpEntity"), ("webauthn", "PublicKeyCredentialUserEntity"),
                     ("webauthn", "FilteredPublicKeyCredentialParameters"), ("ctap2", "AttestationFormatsPreference"),
                     ("ctap2::get_assertion", "HmacSecretInput")]
+
+    def arb_resolve(self, ty, module, feats, depth=0):
+        """follow crate type aliases (`type SaltEnc = Bytes<80>`) so that draws are classified by the real type"""
+        if depth > 8 or ty.get("k") != "path":
+            return ty
+        if ty["name"] in ("String", "Bytes", "Vec", "Option", "bool", "u32", "EcdhEsHkdf256PublicKey"):
+            return ty
+        al = self.lookup(ty["path"], module, ("type",), feats)
+        if al is not None and not ty.get("args"):
+            return self.arb_resolve(al["ty"], al["module"], feats, depth + 1)
+        return ty
 
     def arb_tables(self):
         """shape parameters of the generator helpers and the draw lists of the hand-written
@@ -939,24 +1044,25 @@ class Model:
             f = self.find_fn(name, "arbitrary")
             if f is None:
                 raise Untranslatable("arbitrary::" + name, "function not found")
-            return f["body"].replace(" ", ""), f["sig"].replace(" ", "")
+            return self.alpha(f["body"]), f["sig"].replace(" ", "")
 
         shape = {}
         b, sig = body("arbitrary_str")
         if "->Result<String<N>>" not in sig:
             raise Untranslatable("arbitrary_str", "signature changed")
-        if b == self.ARB_STR.replace("%CLAMP%", ".min(N)"):
+        A = self.alpha
+        if b == A(self.ARB_STR.replace("%CLAMP%", ". min (N)")):
             shape["str_clamp"] = True
-        elif b == self.ARB_STR.replace("%CLAMP%", ""):
+        elif b == A(self.ARB_STR.replace("%CLAMP%", "")):
             shape["str_clamp"] = False
         else:
             raise Untranslatable("arbitrary_str", "body not of a recognised shape")
         b, sig = body("arbitrary_bytes")
         if "->Result<Bytes<N>>" not in sig:
             raise Untranslatable("arbitrary_bytes", "signature changed")
-        if b == self.ARB_BYTES.replace("%CLAMP%", ".min(N)"):
+        if b == A(self.ARB_BYTES.replace("%CLAMP%", ". min (N)")):
             shape["bytes_clamp"] = True
-        elif b == self.ARB_BYTES.replace("%CLAMP%", ""):
+        elif b == A(self.ARB_BYTES.replace("%CLAMP%", "")):
             shape["bytes_clamp"] = False
         else:
             raise Untranslatable("arbitrary_bytes", "body not of a recognised shape")
@@ -964,11 +1070,10 @@ class Model:
         if "->Result<Vec<T,N>>" not in sig:
             raise Untranslatable("arbitrary_vec", "signature changed")
         m = None
-        for cand, rx in (("N", 0),):
-            if b == self.ARB_VEC.replace("%MAX%", "N"):
-                m = 0
+        if b == A(self.ARB_VEC.replace("%MAX%", "N")):
+            m = 0
         if m is None:
-            mm = re.fullmatch(re.escape(self.ARB_VEC).replace(re.escape("%MAX%"), r"\(N\+(\d+)\)"), b)
+            mm = re.fullmatch(re.escape(A(self.ARB_VEC)).replace(re.escape("%MAX%"), r"\(N\+(\d+)\)"), b)
             if mm:
                 m = int(mm.group(1))
         if m is None:
@@ -977,7 +1082,7 @@ class Model:
         for name, exp in (("arbitrary_byte_array", self.ARB_BYTE_ARRAY), ("arbitrary_option", self.ARB_OPTION),
                           ("arbitrary_key", self.ARB_KEY)):
             b, _ = body(name)
-            if b != exp:
+            if b != A(exp):
                 raise Untranslatable(name, "body not of the recognised shape")
 
         def split_stmts(bd):
@@ -1029,16 +1134,21 @@ class Model:
                 mm = re.fullmatch(r"Ok\(Self\((\w+)\)\)", last)
                 order = [(mm.group(1), 0)] if mm else None
             else:
-                mm = re.fullmatch(r"Ok\(Self\{([\w,]*)\}\)", last)
-                order = [(n, fidx.get(n)) for n in mm.group(1).strip(",").split(",")] if mm else None
+                mm = re.fullmatch(r"Ok\(Self\{([\w,:]*)\}\)", last)
+                order = None
+                if mm:
+                    order = []
+                    for part in mm.group(1).strip(",").split(","):
+                        fld, _, var = part.partition(":")
+                        order.append((var or fld, fidx.get(fld)))
             if not order or any(i is None for _, i in order) or sorted(i for _, i in order) != list(range(len(fields))):
                 raise Untranslatable("arbitrary::" + name, "constructor expression not recognised")
             if list(lets) != [n for n, _ in order] and set(lets) != {n for n, _ in order}:
                 raise Untranslatable("arbitrary::" + name, "lets and constructor disagree")
             for var, expr in lets.items():      # draw order = statement order
                 i = dict(order)[var]
-                ty = fields[i]["ty"]
-                inner = ty["args"][0] if ty["name"] == "Option" else ty
+                ty = self.arb_resolve(fields[i]["ty"], it["module"], feats)
+                inner = self.arb_resolve(ty["args"][0], it["module"], feats) if ty["name"] == "Option" else ty
                 if expr == "arbitrary_str(u)?" and ty["name"] == "String":
                     d = {"k": "str", "cap": cap_of(ty, it["module"])}
                 elif expr == "ifbool::arbitrary(u)?{Some(arbitrary_str(u)?)}else{None}" and ty["name"] == "Option" and inner["name"] == "String":
